@@ -175,6 +175,22 @@ claim("C19",
       "machine-checked proof in Rocq (Coq 8.16, std++) of the initial-view model + source translator with per-run obligations + configuration correspondence",
       "DESIGN.md section 7, C19")
 
+claim("C13",
+      "Rocq theorems about what a valid re-labelling guarantees for the re-keyed world (Model/Remap.v): C13_one_to_one_ips/nets, "
+      "C13_shape (masks kept, private stays private, public stays public, every address inside its network), C13_distances "
+      "(all private networks shift by one offset), C13_node_identity + C13_services_data (hosts keep node, services, data), "
+      "C13_membership, C13_connections(+_both_ways) (network membership and allowed connections are the old ones read through the "
+      "mapping). valid_mapping is a boolean evaluated INSIDE Coq on every re-labelling the implementation performs; the model re-keys "
+      "its own world with the implementation's published step and must arrive at the implementation's tables, initial views and "
+      "step results on the re-labelled world (several consecutive resets, shipped and generated scenarios); monitors check that "
+      "the published maps compose and that goal sets, start positions and goal description follow. Partial: the equivariance of "
+      "`step` under an arbitrary injective re-labelling is not proved as a theorem; it is covered by the per-step correspondence on "
+      "the re-labelled world. One known finding (sampler fails for private networks in different RFC 1918 blocks).",
+      "Trusted: Coq kernel + VM; std++; Faker/random are an oracle (the published maps are checked, their distribution is not); "
+      "hand-written Remap/World/Load models tied by differential execution; cyst stub.",
+      "machine-checked proof in Rocq (Coq 8.16, std++) over a re-labelling model + in-Coq validity check of every observed re-labelling + model/code correspondence",
+      "DESIGN.md section 7, C13")
+
 
 def main():
     hooks = {
